@@ -138,6 +138,9 @@ def map_spec(draw, kinds=("cp", "herm", "gen", "gen"), imin=1, omin=1, dmax=DMAX
         # mixed dtypes inside one operator list: the first pair is real-valued with a real dtype, the later ones complex
         # (added after seeded change C04-t1, which decides a "real fast path" from the first operator alone, was missed)
         "real_first": draw(st.integers(0, 3)) == 0,
+        # general (paired) maps whose LEFT operators are all real-dtype while the right ones are complex (seeded change
+        # C04-w1 decided a conjugation-free shortcut from the dtype of the left operators only)
+        "left_real": draw(st.integers(0, 3)) == 0,
     }
 
 
@@ -159,7 +162,7 @@ def build_pairs(m):
     out = []
     for k in range(m["r"]):
         cplx = m["cplx"] and not (k == 0 and m.get("real_first") and m["r"] >= 2)
-        a = _entries(g, m["o1"], m["i1"], m["src"], cplx)
+        a = _entries(g, m["o1"], m["i1"], m["src"], cplx and not (m["kind"] == "gen" and m.get("left_real")))
         if m["kind"] == "gen":
             b = _entries(g, m["o2"], m["i2"], m["src"], cplx)
         else:
@@ -472,6 +475,9 @@ def check_chain(case):
         close(cur, jref, tol, f"chain {trail}: final Choi matrix", "chain:choi")
     else:
         fp, _ = as_pairs(cur, f"chain {trail}")
+        # operators of the wrong shape must be reported as such, not crash the reference computation
+        bad = [(np.shape(a), np.shape(b)) for a, b in fp if np.shape(a) != (o1, i1) or np.shape(b) != (o2, i2)]
+        req(not bad, f"chain {trail}: returned operators have shapes {bad[:3]}, expected {(o1, i1)} / {(o2, i2)}", "chain:operator-shapes")
         close(choi_ref(fp, i1, i2), jref, tol, f"chain {trail}: Choi matrix of the final Kraus family", "chain:choi")
     for s in case["xseeds"]:
         x = build_x(s, i1, i2, "prng", True)
